@@ -1,19 +1,484 @@
-// Package c14: STUB — property C14 is not built yet.
+// Package c14: the spec-compliance stack (httpspec.NewStack) and its members: hop-by-hop
+// removal, Via stamping / loop detection, X-Forwarded-*, framing errors.
+//
+// Op grammar (tokens are hex, "-" = empty; <hdr> = "-" or "key=v,v;key=~;…", keys sorted):
+//
+//	hbh <hdr>                                              header.NewHopByHopModifier alone
+//	via <maj> <min> <name> <boundary> <hdr>                header.NewViaModifier alone (SetBoundary)
+//	fwd <scheme> <host> <url> <remote> <hdr>               header.NewForwardedModifier alone
+//	framing <hdr>                                          header.NewBadFramingModifier alone
+//	stackreq <maj> <min> <name> <boundary> <scheme> <host> <url> <remote> <hdr>
+//	                                                       httpspec.NewStack(name).ModifyRequest
+//	stackres <status> <hdr>                                ….ModifyResponse on the request/context of the last stackreq
+//	e2e …                                                  oracle-only: a real proxy using the stack (see e2e.go)
+//	hdr.canon|get|values|set|add|del, net.shp, re.field2   stdlib-model differential ops
 package c14
 
-import "verif/harness/internal/core"
+import (
+	"bytes"
+	crand "crypto/rand"
+	"encoding/hex"
+	"fmt"
+	"net"
+	"net/http"
+	"net/url"
+	"regexp"
+	"sort"
+	"strconv"
+	"strings"
+	"sync"
+
+	"github.com/google/martian/v3"
+	"github.com/google/martian/v3/fifo"
+	"github.com/google/martian/v3/header"
+	"github.com/google/martian/v3/httpspec"
+	"github.com/google/martian/v3/proxyutil"
+
+	"verif/harness/internal/core"
+)
 
 type P struct{}
 
 func init() { core.Register(P{}) }
 
-func (P) ID() string   { return "C14" }
-func (P) Rule() string { return "stub" }
-func (P) Gen(r *core.Rand, tier string, emit func([]string)) {}
-func (P) NewExec() core.Exec                                   { return ex{} }
-func (P) Nontrivial(ops []string, impl []string) bool         { return false }
+func (P) ID() string { return "C14" }
+func (P) Rule() string {
+	return "case = one generated header multiset (canonical keys as net/http parses them; 0-3 Connection lines with 0-4 tokens each in random " +
+		"case/spacing naming present, absent, fixed hop-by-hop and stamped headers, empty tokens; 0-3 pre-existing Via lines with and without this " +
+		"instance and near misses; pre-existing single/multi-line/empty X-Forwarded-*; Content-Length / Transfer-Encoding combinations) sent through " +
+		"the real stack (stackreq + stackres on the same context) and through each member modifier alone, or a batch of stdlib-model ops " +
+		"(CanonicalHeaderKey, Header Get/Set/Add/Del/Values, net.SplitHostPort, the Via whitespace split), or an e2e exchange through a real proxy " +
+		"using the stack; distinct by hash of the op list; non-trivial when the stack changed the header set (something removed) and kept at least one header"
+}
 
-type ex struct{}
+func (P) Nontrivial(ops []string, impl []string) bool {
+	for i, op := range ops {
+		t := strings.Fields(op)
+		if len(t) == 0 || i >= len(impl) {
+			continue
+		}
+		if t[0] == "stackreq" || t[0] == "hbh" {
+			before, ok := decHeader(t[len(t)-1])
+			f := strings.Fields(impl[i])
+			if !ok || len(f) == 0 {
+				continue
+			}
+			after, ok := decHeader(f[len(f)-1])
+			if !ok {
+				continue
+			}
+			removed, kept := 0, 0
+			for k := range before {
+				if _, ok := after[k]; ok {
+					kept++
+				} else {
+					removed++
+				}
+			}
+			if removed > 0 && kept > 0 {
+				return true
+			}
+		}
+		if t[0] == "e2e" {
+			return true
+		}
+	}
+	return false
+}
 
-func (ex) Do(op string) core.Result { return core.Result{Impl: "bad-op"} }
-func (ex) Close()                   {}
+// ---- header token codec ----
+
+func encHeader(h http.Header) string {
+	if len(h) == 0 {
+		return "-"
+	}
+	keys := make([]string, 0, len(h))
+	for k := range h {
+		keys = append(keys, k)
+	}
+	sort.Strings(keys)
+	var es []string
+	for _, k := range keys {
+		vs := h[k]
+		if len(vs) == 0 {
+			es = append(es, core.HexS(k)+"=~")
+			continue
+		}
+		hv := make([]string, len(vs))
+		for i, v := range vs {
+			hv[i] = core.HexS(v)
+		}
+		es = append(es, core.HexS(k)+"="+strings.Join(hv, ","))
+	}
+	return strings.Join(es, ";")
+}
+
+func decHeader(s string) (http.Header, bool) {
+	h := http.Header{}
+	if s == "-" {
+		return h, true
+	}
+	for _, e := range strings.Split(s, ";") {
+		kv := strings.Split(e, "=")
+		if len(kv) != 2 {
+			return nil, false
+		}
+		k, ok := core.Unhex(kv[0])
+		if !ok {
+			return nil, false
+		}
+		if kv[1] == "~" {
+			h[string(k)] = []string{}
+			continue
+		}
+		var vs []string
+		for _, hv := range strings.Split(kv[1], ",") {
+			v, ok := core.Unhex(hv)
+			if !ok {
+				return nil, false
+			}
+			vs = append(vs, string(v))
+		}
+		h[string(k)] = vs
+	}
+	return h, true
+}
+
+func cloneHeader(h http.Header) http.Header {
+	c := http.Header{}
+	for k, vs := range h {
+		c[k] = append([]string{}, vs...)
+	}
+	return c
+}
+
+func arg(t []string, i int) string {
+	if i >= len(t) {
+		return ""
+	}
+	b, _ := core.Unhex(t[i])
+	return string(b)
+}
+
+// errClass maps a modifier error to the model's enum.
+func errClass(err error) string {
+	if err == nil {
+		return "ok"
+	}
+	var cs []string
+	for _, l := range strings.Split(err.Error(), "\n") {
+		switch {
+		case strings.Contains(l, "detected request loop"):
+			cs = append(cs, "loop")
+		case strings.Contains(l, "mismatched"):
+			cs = append(cs, "cl")
+		case strings.Contains(l, "does not end in"):
+			cs = append(cs, "te")
+		default:
+			cs = append(cs, "other")
+		}
+	}
+	return strings.Join(cs, "+")
+}
+
+// newStack builds httpspec.NewStack(name) with a chosen boundary: the via modifier inside the
+// stack draws its boundary from crypto/rand.Reader, which is pinned for the duration of the call.
+var randMu sync.Mutex
+
+func newStack(name, boundary string) (*fifo.Group, *fifo.Group, bool) {
+	raw, err := hex.DecodeString(boundary)
+	if err != nil || len(raw) != 10 || strings.ToLower(boundary) != boundary {
+		return nil, nil, false
+	}
+	randMu.Lock()
+	defer randMu.Unlock()
+	old := crand.Reader
+	crand.Reader = bytes.NewReader(raw)
+	defer func() { crand.Reader = old }()
+	outer, inner := httpspec.NewStack(name)
+	return outer, inner, true
+}
+
+type ex struct {
+	outer   *fifo.Group
+	req     *http.Request
+	remove  func()
+	loopSig string // "" = the last stackreq's Via did not name this instance; else the sig to use if 400 is missing
+	e2e     *e2eEnv
+}
+
+func (P) NewExec() core.Exec { return &ex{} }
+func (e *ex) Close() {
+	if e.remove != nil {
+		e.remove()
+	}
+	if e.e2e != nil {
+		e.e2e.close()
+	}
+}
+
+func atoi(s string) int { v, _ := strconv.Atoi(s); return v }
+
+var wsRe = regexp.MustCompile("[\t ]+")
+
+func (e *ex) Do(op string) core.Result {
+	t := strings.Fields(op)
+	if len(t) == 0 {
+		return core.Result{Impl: "bad-op"}
+	}
+	switch t[0] {
+	case "hbh":
+		if len(t) != 2 {
+			break
+		}
+		h, ok := decHeader(t[1])
+		if !ok {
+			break
+		}
+		before := cloneHeader(h)
+		req := &http.Request{Method: "GET", URL: &url.URL{Scheme: "http", Host: "h", Path: "/"}, Header: h}
+		err := header.NewHopByHopModifier().ModifyRequest(req)
+		r := core.Result{Impl: encHeader(req.Header)}
+		if err != nil {
+			r.Fail, r.Sig = "hop-by-hop modifier returned an error: "+err.Error(), "c14:hbh-error"
+			return r
+		}
+		if f := first(oracleHop(before, req.Header, nil)); f != nil {
+			r.Fail, r.Sig = f.msg, f.sig
+		}
+		core.Count("op:hbh")
+		return r
+	case "via":
+		if len(t) != 6 {
+			break
+		}
+		h, ok := decHeader(t[5])
+		if !ok {
+			break
+		}
+		name, bd := arg(t, 3), arg(t, 4)
+		before := cloneHeader(h)
+		req := &http.Request{Method: "GET", URL: &url.URL{Scheme: "http", Host: "h", Path: "/"}, Header: h, ProtoMajor: atoi(t[1]), ProtoMinor: atoi(t[2])}
+		ctx, remove, err := martian.TestContext(req, nil, nil)
+		if err != nil {
+			return core.Result{Impl: "bad-op"}
+		}
+		defer remove()
+		vm := header.NewViaModifier(name)
+		vm.SetBoundary(bd)
+		merr := vm.ModifyRequest(req)
+		_, key := ctx.Get("via.LoopDetection")
+		r := core.Result{Impl: fmt.Sprintf("%s skip=%v key=%v %s", errClass(merr), ctx.SkippingRoundTrip(), key, encHeader(req.Header))}
+		mine := fmt.Sprintf("%d.%d %s-%s", req.ProtoMajor, req.ProtoMinor, name, bd)
+		if f := first(oracleVia(before, req.Header, name+"-"+bd, mine, errClass(merr), ctx.SkippingRoundTrip(), false, false)); f != nil {
+			r.Fail, r.Sig = f.msg, f.sig
+		}
+		// response side: 400 iff the loop was seen
+		res := proxyutil.NewResponse(200, nil, req)
+		rerr := vm.ModifyResponse(res)
+		named := namesInstance(before["Via"], name+"-"+bd)
+		if r.Fail == "" && viaDecidable(before["Via"]) {
+			if named && (res.StatusCode != 400 || rerr == nil) {
+				r.Fail, r.Sig = fmt.Sprintf("Via %q names %s-%s but the response is %d (err %v)", before["Via"], name, bd, res.StatusCode, rerr), "c14:loop-not-400"
+			}
+			if !named && (res.StatusCode != 200 || rerr != nil) {
+				r.Fail, r.Sig = fmt.Sprintf("Via %q does not name this instance but the response is %d (err %v)", before["Via"], res.StatusCode, rerr), "c14:false-loop"
+			}
+		}
+		core.Count("op:via:" + errClass(merr))
+		return r
+	case "fwd":
+		if len(t) != 6 {
+			break
+		}
+		h, ok := decHeader(t[5])
+		if !ok {
+			break
+		}
+		scheme, host, us, remote := arg(t, 1), arg(t, 2), arg(t, 3), arg(t, 4)
+		u, err := url.Parse(us)
+		if err != nil || u.String() != us || u.Scheme != scheme {
+			return core.Result{Impl: "bad-op"}
+		}
+		before := cloneHeader(h)
+		req := &http.Request{Method: "GET", URL: u, Host: host, Header: h, RemoteAddr: remote}
+		merr := header.NewForwardedModifier().ModifyRequest(req)
+		r := core.Result{Impl: encHeader(req.Header)}
+		if merr != nil {
+			r.Fail, r.Sig = "forwarded modifier returned an error: "+merr.Error(), "c14:fwd-error"
+			return r
+		}
+		if f := first(oracleFwd(before, req.Header, scheme, host, us, remote, nil)); f != nil {
+			r.Fail, r.Sig = f.msg, f.sig
+		}
+		core.Count("op:fwd")
+		return r
+	case "framing":
+		if len(t) != 2 {
+			break
+		}
+		h, ok := decHeader(t[1])
+		if !ok {
+			break
+		}
+		before := cloneHeader(h)
+		req := &http.Request{Method: "POST", URL: &url.URL{Scheme: "http", Host: "h", Path: "/"}, Header: h}
+		merr := header.NewBadFramingModifier().ModifyRequest(req)
+		cls := errClass(merr)
+		r := core.Result{Impl: cls + " " + encHeader(req.Header)}
+		teBad, clConflict := framingFacts(before)
+		switch {
+		case clConflict && cls != "cl" && cls != "te":
+			r.Fail, r.Sig = fmt.Sprintf("Content-Length %q conflict but the framing modifier returned %s", before["Content-Length"], cls), "c14:framing-cl-unflagged"
+		case teBad && cls != "te" && cls != "cl":
+			r.Fail, r.Sig = fmt.Sprintf("Transfer-Encoding %q does not end in chunked but the framing modifier returned %s", before["Transfer-Encoding"], cls), "c14:framing-te-unflagged"
+		case len(before["Content-Length"]) == 0 && len(before["Transfer-Encoding"]) == 0 && merr != nil:
+			r.Fail, r.Sig = "framing error without Content-Length / Transfer-Encoding: "+merr.Error(), "c14:spurious-error"
+		}
+		core.Count("op:framing:" + cls)
+		return r
+	case "stackreq":
+		if len(t) != 10 {
+			break
+		}
+		h, ok := decHeader(t[9])
+		if !ok {
+			break
+		}
+		name, bd, scheme, host, us, remote := arg(t, 3), arg(t, 4), arg(t, 5), arg(t, 6), arg(t, 7), arg(t, 8)
+		u, err := url.Parse(us)
+		if err != nil || u.String() != us || u.Scheme != scheme {
+			return core.Result{Impl: "bad-op"}
+		}
+		outer, _, ok := newStack(name, bd)
+		if !ok {
+			return core.Result{Impl: "bad-op"}
+		}
+		if e.remove != nil {
+			e.remove()
+			e.remove = nil
+		}
+		before := cloneHeader(h)
+		req := &http.Request{Method: "POST", URL: u, Host: host, Header: h, ProtoMajor: atoi(t[1]), ProtoMinor: atoi(t[2]), RemoteAddr: remote}
+		ctx, remove, err := martian.TestContext(req, nil, nil)
+		if err != nil {
+			return core.Result{Impl: "bad-op"}
+		}
+		e.outer, e.req, e.remove = outer, req, remove
+		merr := outer.ModifyRequest(req)
+		cls := errClass(merr)
+		skip := ctx.SkippingRoundTrip()
+		r := core.Result{Impl: fmt.Sprintf("%s skip=%v %s", cls, skip, encHeader(req.Header))}
+		mine := fmt.Sprintf("%d.%d %s-%s", req.ProtoMajor, req.ProtoMinor, name, bd)
+		fs, loopSig := oracleStackReq(before, req.Header, name+"-"+bd, mine, scheme, host, us, remote, cls, skip)
+		e.loopSig = loopSig
+		if f := first(fs); f != nil {
+			r.Fail, r.Sig = f.msg, f.sig
+		}
+		core.Count("stackreq:" + cls)
+		if skip {
+			core.Count("stackreq:skip")
+		}
+		return r
+	case "stackres":
+		if len(t) != 3 {
+			break
+		}
+		h, ok := decHeader(t[2])
+		if !ok {
+			break
+		}
+		status := atoi(t[1])
+		if e.outer == nil {
+			outer, _, _ := newStack("martian", "00000000000000000000")
+			req := &http.Request{Method: "GET", URL: &url.URL{Scheme: "http", Host: "h", Path: "/"}, Header: http.Header{}}
+			_, remove, err := martian.TestContext(req, nil, nil)
+			if err != nil {
+				return core.Result{Impl: "bad-op"}
+			}
+			e.outer, e.req, e.remove, e.loopSig = outer, req, remove, ""
+		}
+		before := cloneHeader(h)
+		res := proxyutil.NewResponse(status, nil, e.req)
+		res.Header = h
+		merr := e.outer.ModifyResponse(res)
+		cls := errClass(merr)
+		r := core.Result{Impl: fmt.Sprintf("%s %d %s", cls, res.StatusCode, encHeader(res.Header))}
+		var fs []*fl
+		if e.loopSig != "" {
+			if res.StatusCode != 400 {
+				fs = append(fs, &fl{e.loopSig, fmt.Sprintf("the request's Via named this instance but the response status is %d, not 400", res.StatusCode)})
+			}
+		} else {
+			if res.StatusCode != status {
+				fs = append(fs, &fl{"c14:status-changed", fmt.Sprintf("response status %d became %d without a loop", status, res.StatusCode)})
+			}
+			// without a loop the whole response stack runs: hop-by-hop gone, others untouched
+			fs = append(fs, oracleHop(before, res.Header, nil)...)
+			if merr != nil {
+				fs = append(fs, &fl{"c14:spurious-error", "response stack error without a loop: " + merr.Error()})
+			}
+		}
+		if f := first(fs); f != nil {
+			r.Fail, r.Sig = f.msg, f.sig
+		}
+		core.Count("stackres:" + cls)
+		return r
+	case "e2e":
+		return e.doE2E(t)
+	case "hdr.canon":
+		return core.Result{Impl: core.HexS(http.CanonicalHeaderKey(arg(t, 1)))}
+	case "net.shp":
+		hst, _, err := net.SplitHostPort(arg(t, 1))
+		if err != nil {
+			return core.Result{Impl: "none"}
+		}
+		return core.Result{Impl: "some " + core.HexS(hst)}
+	case "re.field2":
+		parts := wsRe.Split(arg(t, 1), 3)
+		if len(parts) < 2 {
+			return core.Result{Impl: "none"}
+		}
+		return core.Result{Impl: "some " + core.HexS(parts[1])}
+	case "hdr.get", "hdr.values", "hdr.del":
+		if len(t) != 3 {
+			break
+		}
+		h, ok := decHeader(t[1])
+		if !ok {
+			break
+		}
+		switch t[0] {
+		case "hdr.get":
+			return core.Result{Impl: core.HexS(h.Get(arg(t, 2)))}
+		case "hdr.values":
+			vs := h.Values(arg(t, 2))
+			if len(vs) == 0 {
+				return core.Result{Impl: "~"}
+			}
+			o := make([]string, len(vs))
+			for i, v := range vs {
+				o[i] = core.HexS(v)
+			}
+			return core.Result{Impl: strings.Join(o, ",")}
+		default:
+			h.Del(arg(t, 2))
+			return core.Result{Impl: encHeader(h)}
+		}
+	case "hdr.set", "hdr.add":
+		if len(t) != 4 {
+			break
+		}
+		h, ok := decHeader(t[1])
+		if !ok {
+			break
+		}
+		if t[0] == "hdr.set" {
+			h.Set(arg(t, 2), arg(t, 3))
+		} else {
+			h.Add(arg(t, 2), arg(t, 3))
+		}
+		return core.Result{Impl: encHeader(h)}
+	}
+	return core.Result{Impl: "bad-op"}
+}
